@@ -1,6 +1,6 @@
 //! The P3 color space(s) and standards.
 
-use core::marker::PhantomData;
+use core::{marker::PhantomData, ops::Mul};
 
 use crate::{
     encoding::{
@@ -8,7 +8,7 @@ use crate::{
         FromLinear, IntoLinear, Srgb,
     },
     luma::LumaStandard,
-    num::{Powf, Real},
+    num::{Abs, Powf, Real, Signum},
     rgb::{Primaries, RgbSpace, RgbStandard},
     white_point::{Any, WhitePoint, D65},
     Mat3, Xyz, Yxy,
@@ -179,21 +179,23 @@ pub struct P3Gamma;
 
 impl<T> IntoLinear<T, T> for P3Gamma
 where
-    T: Real + Powf,
+    T: Real + Powf + Abs + Signum + Mul<Output = T> + Clone,
 {
     #[inline]
     fn into_linear(encoded: T) -> T {
-        encoded.powf(T::from_f64(2.6))
+        // The curve is mirrored for negative values, instead of giving NaN.
+        encoded.clone().signum() * encoded.abs().powf(T::from_f64(2.6))
     }
 }
 
 impl<T> FromLinear<T, T> for P3Gamma
 where
-    T: Real + Powf,
+    T: Real + Powf + Abs + Signum + Mul<Output = T> + Clone,
 {
     #[inline]
     fn from_linear(linear: T) -> T {
-        linear.powf(T::from_f64(1.0 / 2.6))
+        // The curve is mirrored for negative values, instead of giving NaN.
+        linear.clone().signum() * linear.abs().powf(T::from_f64(1.0 / 2.6))
     }
 }
 
